@@ -24,7 +24,7 @@ fn run(ctx: &Ctx) {
          judged against an independent reference factorisation; proptest-generated composites of 14 shapes (prime, balanced / \
          unbalanced semiprime, p^k, (pq)^2, p^2 q, many primes, consecutive primes, p(2p-1), Carmichael, factor inside the factor \
          base, three primes, tiny factors times semiprime) within each selector's size precondition and time budget, with generated \
-         preferences (threads, factor-base size 0.5x..3x default, interval size, large-prime multiplier, double-large-prime switch). \
+         preferences (threads, factor-base size 0.5x..3x default, interval size, large-prime multiplier, double-large-prime switch, verbosity level). \
          Non-trivial = at least two prime factors above 199 (a real algorithm ran); distinct by (selector, n, prefs).",
     );
     ctx.assume("200..500-bit general composites are out of budget: covered only through shapes that finish quickly");
@@ -71,6 +71,7 @@ fn run(ctx: &Ctx) {
     ctx.essential("outcome:opt:ok", 1000);
     ctx.essential("prefs:non-default", 100);
     ctx.essential("prefs:threads>1", 20);
+    ctx.essential("prefs:verbose", 100);
     ctx.essential("shape:prime-power", 10);
     ctx.essential("shape:square-of-composite", 10);
 }
